@@ -225,10 +225,24 @@ theorem C07_inline_program_sound (p : CStmt)
 
 /-! ### what an accepted call looks like (the refusals of `validate`) -/
 
+/-- **No early RETURN.**  An accepted routine has no RETURN except possibly one as its very last
+statement (which `apply` drops): nothing that is copied into the caller can leave the caller, and
+the RETURN-free `body` is the whole routine. -/
+theorem C07_validate_no_early_return (c : Call) (h : validate c = .ok ()) :
+    earlyReturns c = 0 ∧ (c.nReturns = 0 ∨ (c.nReturns = 1 ∧ c.lastIsReturn = true)) := by
+  unfold validate at h
+  split at h
+  · cases h
+  · rename_i h0
+    unfold earlyReturns
+    cases hl : c.lastIsReturn <;> simp [hl] at h0 ⊢ <;> omega
+
 theorem C07_validate_ok (c : Call) (h : validate c = .ok ()) :
     c.params.length = c.actuals.length ∧ checkArgs c.params c.actuals = none ∧
     (∀ x ∈ stmtVars c.body, x ∈ paramNames c ++ c.locals) ∧ (∀ l ∈ c.locals, l ∉ c.statics) := by
   unfold validate at h
+  split at h
+  · cases h
   split at h
   · cases h
   · rename_i h1
@@ -385,6 +399,12 @@ example : validate { exOK with actuals := [.elem1 0 (.var 1), .var 4, .sec1 0 (.
 example : validate { exOK with actuals := [.elem1 0 (.var 1), .var 4, .elem1 0 (.lit 1), .sec2 6 (.lit 0) (.lit 2) true] }
     = .error .rank := by decide
 example : validate { exOK with statics := [7] } = .error .static := by decide
+/-- RETURNs: a single trailing one is accepted; one nested RETURN plus a trailing one, a RETURN that
+is not last, and two RETURNs are refused -/
+example : validate { exOK with nReturns := 1, lastIsReturn := true } = .ok () := by decide
+example : validate { exOK with nReturns := 2, lastIsReturn := true } = .error .earlyReturn := by decide
+example : validate { exOK with nReturns := 1, lastIsReturn := false } = .error .earlyReturn := by decide
+example : validate { exOK with nReturns := 3, lastIsReturn := false } = .error .earlyReturn := by decide
 example : validate { exOK with locals := [1] } = .error .container := by decide
 /-- the call and the inlined code agree on a concrete store (both evaluated by the kernel) -/
 example : (exec (apply exOK) (storeOf [((1, 0, 0), 2), ((4, 0, 0), 3), ((6, 1, 4), 9), ((0, 2, 0), 5)])) (0, 2, 0)
